@@ -56,13 +56,23 @@ func ip(v uint32, sixteen bool) net.IP {
 type wop struct {
 	add bool
 	p   prefix
+	idx int // index into the writer's own prefix list
+}
+
+// hot is the per-prefix bookkeeping that lets a reader know whether a range was stable during its lookup:
+// seq is odd while the owning writer is inside Add/Remove for it, present is what the last completed call left.
+type hot struct {
+	p       prefix
+	seq     atomic.Uint64
+	present atomic.Bool
 }
 
 type scenario struct {
 	stable  []prefix
 	filler  []prefix // preloaded and never touched again, outside the probed regions
 	scripts [][]wop
-	toggle  bool // writer 0 also toggles 0.0.0.0/0
+	owned   [][]prefix // per writer: its pairwise disjoint ranges
+	toggle  bool       // writer 0 also toggles 0.0.0.0/0
 	readers int
 	sixteen bool
 }
@@ -81,19 +91,29 @@ func genScenario(t *rapid.T) *scenario {
 		sc.filler = append(sc.filler, prefix{40<<24 | uint32(i)<<8, 24})
 	}
 	for wi := 0; wi < w; wi++ {
-		n := rapid.IntRange(10, 60).Draw(t, "scriptLen")
+		n := rapid.IntRange(10, 80).Draw(t, "scriptLen")
+		// every writer owns pairwise disjoint ranges: its i-th prefix lives inside (20+wi).i.0.0/16
+		np := rapid.IntRange(2, 40).Draw(t, "nprefixes")
+		mine := make([]prefix, np)
+		for i := range mine {
+			ones := rapid.SampledFrom([]int{16, 17, 20, 24, 28, 31, 32}).Draw(t, "ones")
+			mine[i] = prefix{(uint32(20+wi)<<24 | uint32(i)<<16 | uint32(rapid.IntRange(0, 65535).Draw(t, "low"))) & mask(ones), ones}
+		}
+		sc.owned = append(sc.owned, mine)
+		nhot := rapid.IntRange(1, 3).Draw(t, "nhot") // a few ranges are toggled over and over
 		var script []wop
-		var mine []prefix
+		state := make([]bool, np)
 		for k := 0; k < n; k++ {
-			if len(mine) > 0 && rapid.IntRange(0, 2).Draw(t, "remove") == 0 {
-				p := rapid.SampledFrom(mine).Draw(t, "victim")
-				script = append(script, wop{false, p})
-				continue
+			i := rapid.IntRange(0, np-1).Draw(t, "which")
+			if rapid.IntRange(0, 2).Draw(t, "hot") > 0 {
+				i = i % nhot
 			}
-			ones := rapid.SampledFrom([]int{9, 12, 16, 24, 30, 32}).Draw(t, "ones")
-			p := prefix{(uint32(20+wi)<<24 | uint32(rapid.IntRange(0, 1<<24-1).Draw(t, "low"))) & mask(ones), ones}
-			mine = append(mine, p)
-			script = append(script, wop{true, p})
+			add := !state[i]
+			if rapid.IntRange(0, 7).Draw(t, "redundant") == 0 {
+				add = !add // a redundant add of a present range or remove of an absent one
+			}
+			state[i] = add
+			script = append(script, wop{add, mine[i], i})
 		}
 		sc.scripts = append(sc.scripts, script)
 	}
@@ -111,6 +131,7 @@ func (sc *scenario) render() string {
 type outcome struct {
 	switchedDuringReads bool
 	readerIters         int64
+	stableChecks        int64
 	crossed             bool
 }
 
@@ -129,7 +150,7 @@ func run(sc *scenario) (string, outcome) {
 	}
 	var adds atomic.Int64
 	adds.Store(int64(len(sc.stable) + len(sc.filler)))
-	var iters atomic.Int64
+	var iters, stableChecks atomic.Int64
 	var itersAtCross atomic.Int64
 	itersAtCross.Store(-1)
 	var done atomic.Bool
@@ -150,6 +171,13 @@ func run(sc *scenario) (string, outcome) {
 		}()
 		fn()
 	}
+	hots := make([][]*hot, len(sc.owned))
+	for wi, mine := range sc.owned {
+		hots[wi] = make([]*hot, len(mine))
+		for i, p := range mine {
+			hots[wi][i] = &hot{p: p}
+		}
+	}
 	var wg, rg sync.WaitGroup
 	start := make(chan struct{})
 	for wi, script := range sc.scripts {
@@ -160,6 +188,8 @@ func run(sc *scenario) (string, outcome) {
 			guard(fmt.Sprintf("writer %d", wi), func() {
 				for k, o := range script {
 					var err error
+					h := hots[wi][o.idx]
+					h.seq.Add(1) // odd: an update of this range is in flight
 					if o.add {
 						err = f.Add(ipnet(o.p))
 						if n := adds.Add(1); n == 257 {
@@ -167,6 +197,15 @@ func run(sc *scenario) (string, outcome) {
 						}
 					} else {
 						err = f.Remove(ipnet(o.p))
+					}
+					h.present.Store(o.add)
+					h.seq.Add(1) // even again: stable until the next update
+					// read your own writes: this goroutine is the only one that ever touches this range, so right after
+					// its call returned a lookup must see the new state, whatever the readers are doing meanwhile
+					own := o.p.net | (uint32(k) & ^mask(o.p.ones) & 1)
+					if got := f.Contains(ip(own, sc.sixteen && k%2 == 0)); got != o.add && !(sc.toggle && got) {
+						what := map[bool]string{true: "Add", false: "Remove"}[o.add]
+						report(fmt.Sprintf("writer %d: Contains(%v) = %v right after its own %s(%v/%d) returned", wi, ip(own, false), got, what, ip(o.p.net, false), o.p.ones))
 					}
 					if err != nil {
 						report(fmt.Sprintf("writer %d op %d returned %v", wi, k, err))
@@ -197,8 +236,25 @@ func run(sc *scenario) (string, outcome) {
 					if !sc.toggle && f.Contains(ip(never, sc.sixteen && x&2 == 0)) {
 						report(fmt.Sprintf("Contains(%v) = true during updates, although no range covering it is ever added", ip(never, false)))
 					}
-					// a writer-owned address: any answer is fine while it is being updated, it must just not crash
-					f.Contains(ip(uint32(20+int(x>>4)%len(sc.scripts))<<24|x&0x00ffffff, false))
+					// a writer-owned range: while its owner is inside Add/Remove any answer is fine; if the range was stable for
+					// the whole lookup (same even sequence number before and after) the answer must be its state
+					hw := hots[int(x>>4)%len(hots)]
+					h := hw[int(x>>12)%len(hw)]
+					if x&0x300 != 0 {
+						h = hw[int(x>>12)%min(len(hw), 3)] // mostly the few ranges that are toggled over and over
+					}
+					addr := h.p.net | (x>>3)&^mask(h.p.ones)&1
+					for tap := 0; tap < 2; tap++ {
+						s1 := h.seq.Load()
+						st := h.present.Load()
+						got := f.Contains(ip(addr, sc.sixteen && tap == 1))
+						s2 := h.seq.Load()
+						if s1 == s2 && s1%2 == 0 && got != st && !(sc.toggle && got) {
+							report(fmt.Sprintf("Contains(%v) = %v although %v/%d was %s for the whole duration of the call (no update of it in flight)", ip(addr, false), got, ip(h.p.net, false), h.p.ones,
+								map[bool]string{true: "present", false: "absent"}[st]))
+						}
+						stableChecks.Add(1)
+					}
 					iters.Add(1)
 				}
 			})
@@ -217,6 +273,7 @@ func run(sc *scenario) (string, outcome) {
 	done.Store(true)
 	rg.Wait()
 	oc.readerIters = iters.Load()
+	oc.stableChecks = stableChecks.Load()
 	if c := itersAtCross.Load(); c >= 0 {
 		oc.crossed = true
 		oc.switchedDuringReads = c > 0 && c < oc.readerIters
@@ -294,6 +351,7 @@ func TestScenarios(t *testing.T) {
 			ev.Label("switch_while_readers_active")
 		}
 		ev.LabelN("reader_iterations", oc.readerIters)
+		ev.LabelN("stable_range_lookups", oc.stableChecks)
 		ev.Case(oc.switchedDuringReads, ev.Hash(sc.render(), fmt.Sprint(oc.readerIters)), sc.render)
 	})
 }
